@@ -1,3 +1,4 @@
+import GoHeader.Sync.Trigger
 import GoHeader.Oracle.Common
 import GoHeader.Sync.Machine
 namespace GoHeader.Oracle
@@ -123,6 +124,12 @@ def evalBurst (ins outs : List String) : Verdict :=
     match c03_store_ok stored head tail with
     | some c => .prop c "burst"
     | none =>
+      -- the same interleaving on the hand-over model (theorem c07_no_lost_trigger): the first head starts a sync, the
+      -- others are handed to setLocalHead while it runs, then the loop runs until it is idle
+      let g3 := fun (h : Nat) => [SyncTrigger.Ev.g 0 h, .g 0 h, .g 0 h]
+      let evs := (match heads with | [] => [] | h :: rest => g3 h ++ [.l, .l] ++ rest.flatMap g3) ++ List.replicate 10 SyncTrigger.Ev.l
+      let m := SyncTrigger.run 10 1 evs
+      if m.sh != want then .bad s!"burst: the model schedule ends at {m.sh}" else
       if head != want then .prop "c07_heads_during_sync_are_synced" s!"head={head} newest={want}"
       else if err != 0 || fin != 1 || sw != "ok" then .prop "c07_state_finished" s!"err={err} finished={fin} syncwait={sw}"
       else .ok "burst"
